@@ -182,10 +182,32 @@ def _mined_separators(P):
     """the text constants the configuration parser splits keys or values on (str.split / re.split / partition with a literal)"""
     m = P.module("atsim.potentials.config._config_parser")
     seps = set()
+    splitters = {}       # function name -> (index of the parameter that is used as a separator, its name)
+    for fn in ast.walk(m.tree):
+        if not isinstance(fn, ast.FunctionDef):
+            continue
+        params = [a.arg for a in fn.args.args]
+        for n in ast.walk(fn):
+            if isinstance(n, ast.Call) and isinstance(n.func, ast.Attribute) and n.func.attr in ("split", "rsplit", "partition", "rpartition") and n.args:
+                a0 = n.args[0]
+                if isinstance(a0, ast.Constant) and isinstance(a0.value, str) and a0.value.strip():
+                    seps.add(a0.value)
+                elif isinstance(a0, ast.Name) and a0.id in params:
+                    splitters[fn.name] = (params.index(a0.id), a0.id)
+    # a helper that splits on one of its parameters: the text constants its callers pass for that parameter
     for n in ast.walk(m.tree):
-        if isinstance(n, ast.Call) and isinstance(n.func, ast.Attribute) and n.func.attr in ("split", "rsplit", "partition", "rpartition") \
-                and n.args and isinstance(n.args[0], ast.Constant) and isinstance(n.args[0].value, str) and n.args[0].value.strip():
-            seps.add(n.args[0].value)
+        if isinstance(n, ast.Call):
+            nm = n.func.attr if isinstance(n.func, ast.Attribute) else (n.func.id if isinstance(n.func, ast.Name) else None)
+            if nm in splitters:
+                idx, pname = splitters[nm]
+                for off in (0, 1):          # called as a function or as a method (self not among the call's arguments)
+                    j = idx - off
+                    arg = n.args[j] if 0 <= j < len(n.args) else None
+                    if isinstance(arg, ast.Constant) and isinstance(arg.value, str) and arg.value.strip():
+                        seps.add(arg.value)
+                for k in n.keywords:
+                    if k.arg == pname and isinstance(k.value, ast.Constant) and isinstance(k.value.value, str) and k.value.value.strip():
+                        seps.add(k.value.value)
     return sorted(seps)
 
 
